@@ -409,6 +409,67 @@ static void sorted_long(const pinst *p) {
     vh_class(ck, "%s", p->tag);
 }
 
+/* giant sorted arrays (thorough tier, where VERIF_GIANT is set): more than 2^32 BITS of elements above the insertion
+ * point, for the whole-slot widths whose layout is a plain array of slots */
+static void giant_insert(const pinst *p) {
+    int w = p->width;
+    uint64_t L = (((uint64_t)1 << 32) / (uint64_t)w) + 3;
+    size_t bytes = (size_t)((L + 2) * (uint64_t)w / 8) + 64;
+    uint8_t *st = mmap(NULL, bytes, PROT_READ | PROT_WRITE, MAP_PRIVATE | MAP_ANONYMOUS | MAP_NORESERVE, -1, 0);
+    if (st == MAP_FAILED) {
+        vh_flag("giant_insert_mapped", 0);
+        return;
+    }
+    uint64_t mask = w == 64 ? UINT64_MAX : ((1ULL << w) - 1);
+    /* ascending, many duplicates: value of element i is (i >> 13) + 1, capped */
+    for (uint64_t i = 0; i < L; i++) {
+        uint64_t v = ((i >> 13) + 1) & mask;
+        if (((i >> 13) + 1) > mask) {
+            v = mask;
+        }
+        memcpy(st + (size_t)(i * (uint64_t)w / 8), &v, (size_t)w / 8);
+    }
+    memset(st + (size_t)(L * (uint64_t)w / 8), 0xA5, 64);
+    snprintf(cur_desc, sizeof cur_desc, "%s: sorted array of %" PRIu64 " elements (%" PRIu64 " bits)", p->tag, L, L * (uint64_t)w);
+    if (SB_ENTER()) {
+        p->insert_sorted(st, L, 0); /* goes to position 0: every element moves up by one */
+        SB_LEAVE();
+    } else {
+        PFAIL("packed.InsertSorted", vh_fault_name(), "%s %s", cur_desc, vh_fault_msg);
+        munmap(st, bytes);
+        return;
+    }
+    uint64_t bad = 0, firstbad = 0;
+    for (uint64_t i = 0; i <= L; i++) {
+        uint64_t want = i == 0 ? 0 : (((i - 1) >> 13) + 1 > mask ? mask : (((i - 1) >> 13) + 1) & mask), got = 0;
+        memcpy(&got, st + (size_t)(i * (uint64_t)w / 8), (size_t)w / 8);
+        if (got != want) {
+            if (!bad) {
+                firstbad = i;
+            }
+            bad++;
+        }
+    }
+    uint64_t lastv = p->get(st, L);
+    int64_t mem = p->member(st, L + 1, (((L - 1) >> 13) + 1 > mask ? mask : (((L - 1) >> 13) + 1) & mask));
+    if (bad || mem < 0) {
+        PFAIL("packed.InsertSorted", "model_divergence", "%s: after InsertSorted(0) %" PRIu64 " elements differ from the model (first at index %" PRIu64 "), last element reads 0x%" PRIx64 ", Member(last value) = %" PRId64, cur_desc, bad, firstbad,
+              lastv, mem);
+    }
+    for (int k = 0; k < 8; k++) {
+        if (st[(size_t)((L + 1) * (uint64_t)w / 8) + (size_t)k] != 0xA5) {
+            PFAIL("packed.InsertSorted", "neighbour_corrupted", "%s: bytes after the array changed", cur_desc);
+            break;
+        }
+    }
+    vh_count("calls", 3);
+    vh_count("cases", 1);
+    char ck[64];
+    snprintf(ck, sizeof ck, "giant-insert/w%d", w);
+    vh_class(ck, "%s", cur_desc);
+    munmap(st, bytes);
+}
+
 /* ---------------------------------------------------------------- sorted semantics: BFS to closure */
 #define MAXLEN 7
 typedef struct {
@@ -657,6 +718,19 @@ int main(int argc, char **argv) {
                     PFAIL("packed.sorted", vh_fault_name(), "%s %s", cur_desc, vh_fault_msg);
                 }
             }
+        }
+    }
+    if (getenv("VERIF_GIANT") && vh_section_begin("giant-insert")) {
+        for (int k = 0; k < NPINST; k++) {
+            const pinst *p = &PINST[k];
+            if (p->compact || p->intree || p->maxel != 0xffffffffull || p->width != p->slotbits || !(p->width == 8 || p->width == 16 || p->width == 32)) {
+                continue;
+            }
+            if (!vh_case()) {
+                continue;
+            }
+            cur_inst = p;
+            giant_insert(p);
         }
     }
     vh_write_out();
